@@ -49,7 +49,7 @@ for i in (1, 2, 3):
             m = re.match(r"(C\d\d) exit=(\d+)(.*)", line)
             if m: results[m.group(1)] = dict(exit=int(m.group(2)), first_violation=m.group(3).strip()[:500])
         print("   checks:", {k: v["exit"] for k, v in results.items()}, flush=True)
-    out = f"/verif/seeded/{prop}-r4-{i}" if "/wt4-" in wt else f"/verif/seeded/{prop}-r3-{i}" if "/wt3-" in wt else (f"/verif/seeded/{prop}-r2-{i}" if "/wt2-" in wt else f"/verif/seeded/{prop}-{i}")
+    out = f"/verif/seeded/{prop}-r5-{i}" if "/wt5-" in wt else f"/verif/seeded/{prop}-r4-{i}" if "/wt4-" in wt else f"/verif/seeded/{prop}-r3-{i}" if "/wt3-" in wt else (f"/verif/seeded/{prop}-r2-{i}" if "/wt2-" in wt else f"/verif/seeded/{prop}-{i}")
     os.makedirs(out, exist_ok=True)
     shutil.copy(d, os.path.join(out, "patch.diff")); shutil.copy(demo, os.path.join(out, "demo.rs"))
     if os.path.exists(notes): shutil.copy(notes, os.path.join(out, "notes.md"))
